@@ -43,13 +43,83 @@ func init() {
 		if tier == "thorough" {
 			n = e + c04bitsUpper + 3000 // RSA sweep + sampled refresh-path flips and larger documents
 		}
-		return Plan{Runs: n, Enumerated: e, Exhaustive: true, Level: "fault_enumeration", Rule: "enumerated: (signer in {issuer, configured trusted signer, sibling CA with the same name, stranger, the client certificate's own key, the same with the client certificate presented alone as a directly trusted leaf, CA without cRLSign, the issuer's genuine signature of ANOTHER list the validator verified earlier in the same process, the root of the presented chain signing in the issuer's name} x AKI form in {keyId, absent, issuer+serial, both, foreign keyId, serial without issuer, URI issuer + serial} x intake path in {first CDP load, crl_urls at provision, periodic refresh, and - for the configured trusted signer - a restart on the same work_dir with that signer withdrawn from the configuration}) + (13 signature algorithms x intake path) + every single-bit flip of tbsCertList / signatureAlgorithm / signatureValue of a small ECDSA CRL on the first-load path (bit indices past the end of the document are counted as skipped); further runs: the same sweep for an RSA CRL (thorough), flips on the refresh path and on larger documents; oracle: a non-authentic document is never observed in force and a strict handshake for its distribution point is denied unless an earlier authentic version is in force; non-trivial = the delivered document was not authentic"}
+		// the last runs take two lists in AT THE SAME TIME (a genuine one and a forgery carrying the genuine one's
+		// signature value) under heavy preemption and under the race detector: what one intake computes must not
+		// reach the other
+		conc := c04concurrentRuns(tier)
+		n += conc
+		return Plan{Runs: n, Enumerated: e + conc, RaceFrom: e, RaceTo: e + conc, Exhaustive: true, Level: "fault_enumeration", Rule: "enumerated: (signer in {issuer, configured trusted signer, sibling CA with the same name, stranger, the client certificate's own key, the same with the client certificate presented alone as a directly trusted leaf, CA without cRLSign, the issuer's genuine signature of ANOTHER list the validator verified earlier in the same process, the root of the presented chain signing in the issuer's name} x AKI form in {keyId, absent, issuer+serial, both, foreign keyId, serial without issuer, URI issuer + serial} x intake path in {first CDP load, crl_urls at provision, periodic refresh, and - for the configured trusted signer - a restart on the same work_dir with that signer withdrawn from the configuration}) + (13 signature algorithms x intake path) + every single-bit flip of tbsCertList / signatureAlgorithm / signatureValue of a small ECDSA CRL on the first-load path (bit indices past the end of the document are counted as skipped); further runs: the same sweep for an RSA CRL (thorough), flips on the refresh path and on larger documents; 24 (thorough: 200) runs right after the enumerated ones take a genuine list and a forgery carrying its signature value in at the same time, under heavy preemption and the race detector; oracle: a non-authentic document is never observed in force and a strict handshake for its distribution point is denied unless an earlier authentic version is in force; non-trivial = the delivered document was not authentic"}
 	}, Run: runC04})
+}
+
+func c04concurrentRuns(tier string) int {
+	if tier == "thorough" {
+		return 200
+	}
+	return 24
+}
+
+func c04total(tier string) int {
+	m := c04matrix()
+	e := m + c04bitsUpper
+	if tier == "thorough" {
+		return e + c04bitsUpper + 3000 + c04concurrentRuns(tier)
+	}
+	return e + 200 + c04concurrentRuns(tier)
+}
+
+// c04concurrentIntake: location L0 serves a genuine list, location L1 a list with altered content that carries the
+// signature value of L0's list (same issuer, same algorithm). Both are met for the first time at the same instant.
+func c04concurrentIntake(h *Harness) {
+	tp := h.Tape
+	sc := h.R.Scenario
+	backend := []string{"memory", "disk"}[h.Idx%2]
+	h.S.pPre = uint64(Pick(tp, 200, 400, 700)) * (1 << 32) / 1000
+	h.S.stallSteps, h.S.pDelayDen, h.S.delayFor = Pick(tp, 0, 30, 300), Pick(tp, 0, 4), 2*time.Second
+	sc["case"], sc["path"], sc["backend"], sc["authentic"] = "signer=replayed-signature concurrent-intake", "first-load", backend, false
+	h.R.NonTrivial, h.R.Config = true, "faulty"
+	w := NewWorld(h, WorldOpts{RSA: h.Idx%3 == 0, Intermediate: tp.Chance(1, 2)})
+	l0 := w.NewLocation(LocOpts{Name: "L0", URL: "http://crl0.sim/genuine.crl", Issuer: w.A, NVers: 1, Extra: Pick(tp, 2, 40), Width: 9, Base: 9})
+	l1 := w.NewLocation(LocOpts{Name: "L1", URL: "http://crl.sim/a.crl", Issuer: w.A, NVers: 1, Extra: Pick(tp, 2, 40), Width: 8})
+	g := *l0.Versions[0]
+	g.AutoAlg = true
+	g.Build()
+	l0.Versions[0] = &g
+	f := *l1.Versions[0]
+	f.AutoAlg, f.SigOverride = true, g.Sig
+	f.Build()
+	l1.Versions[0] = &f
+	cfg := NodeCfg{Mode: "crl_only", Storage: backend, UpdateInterval: "10m", SigMode: "verify", CDPStrict: true}
+	n := h.NewNode("n1", cfg)
+	if err := h.Provision(n); err != nil {
+		h.Violation("C04.setup", "provision-failed", "%v", err)
+		return
+	}
+	a := h.StartHandshake(n, "genuine", w.ChainFor(l0.Cert(l0.Never[0]), w.A))
+	b := h.StartHandshake(n, "forged", w.ChainFor(l1.Cert(l1.Never[0]), w.A))
+	h.Wait(a.Task, b.Task)
+	h.Quiesce()
+	h.R.Checks += 2
+	if b.Err == nil {
+		h.Violation("C04.strict-accept-unauthentic", "signer=replayed-signature:concurrent-intake", "strict: a handshake was accepted although the only CRL ever delivered for its distribution point is a forgery carrying another list's signature value (taken in at the same time as that other list)")
+	}
+	if p := l1.Pattern(n); p == "v1" || strings.HasPrefix(p, "other") {
+		h.Violation("C04.unauthentic-in-force", "signer=replayed-signature:concurrent-intake", "the probes show the forged list in force (pattern %s): it was taken in while the genuine list whose signature value it carries was being read", p)
+	}
+	h.R.Sample = map[string]any{"case": "concurrent intake of a genuine list and a forgery with its signature", "backend": backend}
+	h.Cleanup(n)
 }
 
 func runC04(h *Harness) {
 	tp := h.Tape
 	sc := h.R.Scenario
+	if e := c04matrix() + c04bitsUpper; h.Idx >= e {
+		if h.Idx < e+c04concurrentRuns(h.Tier) {
+			c04concurrentIntake(h)
+			return
+		}
+		h.Idx -= c04concurrentRuns(h.Tier) // the runs behind keep their numbering
+	}
 	m := c04matrix()
 	signer, aki, path := "issuer", akiDefault, "first-load"
 	alg := SigAlg(-1)
